@@ -4,7 +4,8 @@ from common import *  # noqa: F401,F403
 RULE = ("histories: a random curve M on a random knot vector (generic points, so M is minimal — confirmed by the exact minimal-form oracle), then "
         "random knot insertions and degree elevations in random order giving X; then clean(), or degree_clean()+knot_clean() in either order; a "
         "second, differently inflated representation Y of the same curve; idempotence.  Polynomial and rational curves.  Non-trivial: at least two "
-        "inflation steps; distinct = distinct (M, history).")
+        "inflation steps; distinct = distinct (M, history)."
+        " Also: dyadic knots with a float twin cleaned first.")
 EXPLANATION = ("L3: `rf.eq` (cleaned curve equals the original, every u), `rf.minimal` (exact smallest degree and, per knot, the multiplicity forced "
                "by the first jumping derivative) compared with the cleaned knot vector, identical data for two representations, idempotence.  "
                "L2: cleaned state vs the model's clean loops.")
